@@ -244,7 +244,12 @@ func wsScenarios() []hx.Scenario {
 					cases = append(cases, wc)
 				}
 			}
+			failed := 0
 			for _, wc := range cases {
+				if c.Expired() || failed >= 2 {
+					// (a case that fails waits for its generous deadline: after two of them the verdict is in)
+					break
+				}
 				{
 					sz, burst := wc.Size, wc.Burst
 					b, _ := json.Marshal(wc)
@@ -264,6 +269,9 @@ func wsScenarios() []hx.Scenario {
 					szc := "small"
 					if sz >= 4096 {
 						szc = "frame>=4096"
+					}
+					if !found || !res.OK {
+						failed++
 					}
 					switch {
 					case !found:
